@@ -62,39 +62,29 @@ Fixpoint wf (t : tree) : bool :=
   let 'Node _ s e k := t in
   Nat.leb s e && ordered s k && forallb (fun c => Nat.leb (en c) e) k && forallb wf k.
 
-(* ---- find_in_loc: the first highest-level node that lies entirely inside a span ----
-   self inside the span: self. Otherwise the walk over the descendants: a node that starts before the span is passed over
-   (the walk goes on into it), a node that also ends inside the span is the answer, any other node (it starts inside and ends
-   behind) becomes the current node and the walk restarts below it. *)
+(* ---- find_in_loc: the first node, in the order of the walk, that lies entirely inside a span ----
+   self inside the span: self. Otherwise ONE walk over the descendants: a node that starts before the span is passed over (the
+   walk goes on into it), a node that starts and ends inside the span is the answer, any other node (it starts inside and ends
+   behind) is passed over as well - the walk goes on into it and, because siblings can overlap (the Constant in front of a
+   self-documenting f-string field), behind it. (The code also stops at the first node whose bounding location starts behind
+   the span: from there on nothing the walk has left can lie inside; the model walks on, the answers are the same.) *)
 Definition inside (t : tree) (a b : nat) : bool := Nat.leb a (st t) && Nat.leb (en t) b.
 
-Inductive verdict_in := NotFound | Found (t : tree) | Below (t : tree).
-
-Fixpoint scan_in (fuel : nat) (a b : nat) (todo : list tree) : verdict_in :=
+Fixpoint scan_in (fuel : nat) (a b : nat) (todo : list tree) : option tree :=
   match fuel with
-  | 0 => NotFound
+  | 0 => None
   | S f =>
       match todo with
-      | [] => NotFound
+      | [] => None
       | x :: rest =>
           if Nat.ltb (st x) a then scan_in f a b (kids x ++ rest)
-          else if Nat.leb (en x) b then Found x
-          else Below x
+          else if Nat.leb (en x) b then Some x
+          else scan_in f a b (kids x ++ rest)
       end
   end.
 
-Fixpoint descend_in (fuel : nat) (a b : nat) (self : tree) : option tree :=
-  match fuel with
-  | 0 => None
-  | S f => match scan_in (S (sizes (kids self))) a b (kids self) with
-           | NotFound => None
-           | Found x => Some x
-           | Below x => descend_in f a b x
-           end
-  end.
-
 Definition find_in (root : tree) (a b : nat) : option nat :=
-  if inside root a b then Some (nid root) else option_map nid (descend_in (size root) a b root).
+  if inside root a b then Some (nid root) else option_map nid (scan_in (S (sizes (kids root))) a b (kids root)).
 
 (* ---- allow_exact: True (above), 'top' and False ----
    A node whose bounding location IS the span: with 'top' the first such node met on the way down is returned at once (the
